@@ -20,7 +20,12 @@ ASSUMPTIONS = ['np.searchsorted(side="right") on a sorted array = number of elem
                'np.inf arithmetic: 0+inf = inf, exp(-inf) = 0, inf > 10',
                'the cloud deck is the first contribution after build() sorts by .order (3 < 5)',
                'pressure levels strictly decreasing with altitude, layer pressures inside their levels (C11)',
-               'rounding not modelled: sigma compared to 1e-9 relative']
+               'rounding not modelled: sigma compared to 1e-9 relative',
+               'source tie of the cloudy run (Props/C19Src.lean src_cloudy_run_*, Props/C19SrcProps.lean): the regenerated '
+               'path_integral / contribute / compute_absorption / prepare_each are run at the extended carrier XR '
+               '(Proofs/C19Ext.lean): a real, +inf, -inf or nan; IEEE rules for the special values (x+inf=inf, inf-inf=nan, '
+               '0*inf=nan, comparisons with nan false, exp(-inf)=0), the real carrier on finite arguments (unsigned zero, '
+               'no rounding); np.inf is the value pinf, every other input is finite']
 
 # ---- source tie (harness/translate.py, dialect 'shaped'): re-translated on every run into lean/TaurexModel/Gen/SrcC19.lean;
 # lean/Props/C19Src.lean proves each definition equal to the model function of TaurexModel/Haze.lean.
@@ -56,6 +61,15 @@ SRC_SPECS = [
          local_attrs=['self._nlayers', 'self._ngrid'], ignore_stores=['self.sigma_xsec'], yields='single',
          returns='arr2'),
 ]
+# the run the cloud theorems are about: `TransmissionModel.path_integral` (the loop over the layers, the loop over the
+# contribution list with its `tau[layer].min() > 10` break), the `contribute` methods Python's dynamic dispatch reaches, the
+# chord lengths and `compute_absorption` (`np.exp(-tau)`).  The specs are C01's (harness/c01.py), re-translated here into
+# Gen/SrcC19.lean; Props/C19SrcProps.lean instantiates them at the extended carrier `XR` (Proofs/C19Ext.lean: the reals plus
+# +inf, -inf, nan with numpy's float rules for them), where `np.inf` is a value.
+_C01 = {s['lean']: s for s in T.SRC_SPECS}
+SRC_SPECS += [dict(_C01[k]) for k in ('contribute_tau', 'contribution_contribute', 'contribute_cia', 'cia_contribute',
+                                      'compute_path_length_old', 'compute_absorption', 'parallel_vector',
+                                      'compute_path_length', 'path_integral')]
 
 E10 = T.E10
 
